@@ -399,3 +399,272 @@ def gen_uniq() -> typing.Tuple[bool, str]:
 
 
 GENERATORS = {'uniq': gen_uniq}
+
+
+# =====================================================================================================================
+# Inventory of memoisation / mutable process state in src/nunavut (C10): Generated/Gen_Sites.v
+# =====================================================================================================================
+SCAN_EXCLUDE = ('jinja/jinja2/', 'jinja/markupsafe/')      # the bundled third-party engine is C19's subject
+VALUE_ANNOTATIONS = {'str', 'int', 'bool', 'float', 'bytes'}
+MUTATORS = {'append', 'extend', 'insert', 'add', 'update', 'setdefault', 'pop', 'popitem', 'clear', 'remove', 'discard',
+            'appendleft', 'sort', 'reverse', '__setitem__', '__delitem__'}
+CONTAINER_CALLS = {'dict', 'list', 'set', 'defaultdict', 'OrderedDict', 'deque', 'Counter', 'bytearray'}
+
+
+def _coq_str(s: str) -> str:
+    return '([%s]%%N : str) (* %s *)' % ('; '.join(str(ord(c)) for c in s), s.replace('*)', '* )'))
+
+
+def _deco_name(d: ast.expr) -> str:
+    if isinstance(d, ast.Call):
+        d = d.func
+    if isinstance(d, ast.Attribute):
+        return d.attr
+    if isinstance(d, ast.Name):
+        return d.id
+    return '?'
+
+
+def _is_container_value(v: typing.Optional[ast.expr]) -> bool:
+    if v is None:
+        return False
+    if isinstance(v, (ast.Dict, ast.List, ast.Set, ast.ListComp, ast.DictComp, ast.SetComp)):
+        return True
+    if isinstance(v, ast.Call):
+        f = v.func
+        n = f.attr if isinstance(f, ast.Attribute) else (f.id if isinstance(f, ast.Name) else '')
+        return n in CONTAINER_CALLS
+    return False
+
+
+def _annotation_kind(a: typing.Optional[ast.expr]) -> str:
+    """value = compared by value and immutable; object = compared through a user-defined __eq__/__hash__ or identity"""
+    if a is None:
+        return 'PObject'
+    if isinstance(a, ast.Constant) and isinstance(a.value, str):
+        try:
+            a = ast.parse(a.value, mode='eval').body
+        except SyntaxError:
+            return 'PObject'
+    if isinstance(a, ast.Name) and a.id in VALUE_ANNOTATIONS:
+        return 'PValue'
+    if isinstance(a, ast.Subscript):     # Optional[str], typing.Optional[int]
+        base = a.value.attr if isinstance(a.value, ast.Attribute) else (a.value.id if isinstance(a.value, ast.Name) else '')
+        if base == 'Optional':
+            return _annotation_kind(a.slice)
+    return 'PObject'
+
+
+def _mutated_names(tree: ast.AST) -> typing.Set[str]:
+    """names (module or class level containers) that some code of the module stores into / calls a mutator on"""
+    out: typing.Set[str] = set()
+
+    def root(e):
+        while isinstance(e, (ast.Attribute, ast.Subscript)):
+            if isinstance(e, ast.Attribute) and isinstance(e.value, ast.Name) and e.value.id in ('self', 'cls'):
+                return e.attr
+            e = e.value
+        return e.id if isinstance(e, ast.Name) else None
+
+    for n in ast.walk(tree):
+        if isinstance(n, (ast.Assign, ast.AugAssign, ast.AnnAssign, ast.Delete)):
+            tgts = n.targets if isinstance(n, (ast.Assign, ast.Delete)) else [n.target]
+            for t in tgts:
+                if isinstance(t, ast.Subscript) or isinstance(n, ast.AugAssign):
+                    r = root(t)
+                    if r:
+                        out.add(r)
+        if isinstance(n, ast.Call) and isinstance(n.func, ast.Attribute) and n.func.attr in MUTATORS:
+            r = root(n.func.value)
+            if r:
+                out.add(r)
+    return out
+
+
+def _function_pure(fn: ast.FunctionDef, module_safe: typing.Set[str]) -> bool:
+    """every free name of the body is a parameter, a local, a builtin or a module-level import/def/class/constant"""
+    import builtins
+    local = {a.arg for a in fn.args.args + fn.args.kwonlyargs}
+    for n in ast.walk(fn):
+        if isinstance(n, (ast.Global, ast.Nonlocal)):
+            return False
+        if isinstance(n, ast.Name) and isinstance(n.ctx, ast.Store):
+            local.add(n.id)
+    for n in ast.walk(fn):
+        if isinstance(n, ast.Name) and isinstance(n.ctx, ast.Load):
+            if n.id not in local and n.id not in module_safe and not hasattr(builtins, n.id):
+                return False
+    return True
+
+
+def scan_sites() -> typing.List[dict]:
+    root = os.path.join(gen.REPO, 'src', 'nunavut')
+    sites: typing.List[dict] = []
+    eq_classes: typing.Set[str] = set()
+    trees = []
+    for d, _, names in sorted(os.walk(root)):
+        for n in sorted(names):
+            if not n.endswith('.py'):
+                continue
+            rel = os.path.relpath(os.path.join(d, n), root).replace(os.sep, '/')
+            if rel.startswith(SCAN_EXCLUDE):
+                continue
+            tree = ast.parse(open(os.path.join(d, n), encoding='utf-8').read(), filename=rel)
+            trees.append((rel, tree))
+            for c in ast.walk(tree):
+                if isinstance(c, ast.ClassDef) and any(isinstance(f, ast.FunctionDef) and f.name in ('__eq__', '__hash__') for f in c.body):
+                    eq_classes.add(c.name)
+    for rel, tree in trees:
+        mutated = _mutated_names(tree)
+        module_safe: typing.Set[str] = set()
+        for st in tree.body:
+            if isinstance(st, (ast.Import, ast.ImportFrom)):
+                module_safe.update((a.asname or a.name).split('.')[0] for a in st.names)
+            elif isinstance(st, (ast.FunctionDef, ast.ClassDef)):
+                module_safe.add(st.name)
+            elif isinstance(st, (ast.Assign, ast.AnnAssign)):
+                tg = st.targets if isinstance(st, ast.Assign) else [st.target]
+                if not _is_container_value(st.value):
+                    module_safe.update(t.id for t in tg if isinstance(t, ast.Name))
+
+        def add(name, kind, params=(), flag=False, key=''):
+            sites.append({'file': rel, 'name': name, 'kind': kind, 'params': list(params), 'flag': bool(flag), 'key': key})
+
+        def visit_fn(fn: ast.FunctionDef, cls: typing.Optional[ast.ClassDef]):
+            decos = [_deco_name(x) for x in fn.decorator_list]
+            qual = (cls.name + '.' if cls else '') + fn.name
+            if any(x in ('lru_cache', 'cache') for x in decos):
+                if fn.args.vararg or fn.args.kwarg:
+                    raise Unsupported('%s: memoised function with *args/**kwargs' % qual)
+                params = []
+                args = fn.args.args + fn.args.kwonlyargs
+                is_method = cls is not None and not any(x in ('staticmethod', 'classmethod') for x in decos)
+                for i, a in enumerate(args):
+                    if i == 0 and is_method:
+                        bases = {b.id if isinstance(b, ast.Name) else getattr(b, 'attr', '') for b in cls.bases}
+                        params.append((a.arg, 'PSelfByEq' if (cls.name in eq_classes or bases & eq_classes) else 'PSelfIdentity'))
+                    else:
+                        params.append((a.arg, _annotation_kind(a.annotation)))
+                if is_method:
+                    add(qual, 'KLruMethod', params)
+                else:
+                    add(qual, 'KLruFunction', params, flag=_function_pure(fn, module_safe))
+            if 'cached_property' in decos:
+                add(qual, 'KCachedProp')
+            for n in ast.walk(fn):
+                if isinstance(n, ast.Global):
+                    for g in n.names:
+                        add(qual + ':' + g, 'KModuleGlobal')
+                # self.<...cache/memo...> = <container>
+                if isinstance(n, (ast.Assign, ast.AnnAssign)):
+                    tg = n.targets if isinstance(n, ast.Assign) else [n.target]
+                    for t in tg:
+                        if (isinstance(t, ast.Attribute) and isinstance(t.value, ast.Name) and t.value.id == 'self'
+                                and ('cache' in t.attr.lower() or 'memo' in t.attr.lower()) and _is_container_value(n.value)):
+                            keys = sorted({ast.unparse(s.slice) for s in ast.walk(cls or tree) if isinstance(s, ast.Subscript)
+                                           and isinstance(s.value, ast.Attribute) and s.value.attr == t.attr})
+                            add((cls.name + '.' if cls else '') + t.attr, 'KInstanceMemo', key=' | '.join(keys))
+                        # cls.<attr> = ...   (class-level singleton)
+                        if (isinstance(t, ast.Attribute) and isinstance(t.value, ast.Name) and cls is not None
+                                and (t.value.id == 'cls' or t.value.id == cls.name)):
+                            add(cls.name + '.' + t.attr, 'KClassSingleton')
+                # if self.X is None: self.X = ...
+                if (isinstance(n, ast.If) and isinstance(n.test, ast.Compare) and len(n.test.ops) == 1
+                        and isinstance(n.test.ops[0], ast.Is) and isinstance(n.test.left, ast.Attribute)
+                        and isinstance(n.test.left.value, ast.Name) and n.test.left.value.id == 'self'
+                        and isinstance(n.test.comparators[0], ast.Constant) and n.test.comparators[0].value is None):
+                    attr = n.test.left.attr
+                    if any(isinstance(m, (ast.Assign, ast.AnnAssign)) and any(
+                            isinstance(t, ast.Attribute) and isinstance(t.value, ast.Name) and t.value.id == 'self' and t.attr == attr
+                            for t in (m.targets if isinstance(m, ast.Assign) else [m.target])) for b in n.body for m in ast.walk(b)):
+                        add((cls.name + '.' if cls else '') + attr, 'KInstanceLazy')
+
+        for st in tree.body:
+            if isinstance(st, ast.FunctionDef):
+                visit_fn(st, None)
+            elif isinstance(st, ast.ClassDef):
+                for m in ast.walk(st):
+                    if isinstance(m, ast.FunctionDef):
+                        visit_fn(m, st)
+                for b in st.body:
+                    if isinstance(b, (ast.Assign, ast.AnnAssign)) and _is_container_value(b.value):
+                        for t in (b.targets if isinstance(b, ast.Assign) else [b.target]):
+                            if isinstance(t, ast.Name):
+                                add(st.name + '.' + t.id, 'KClassContainer', flag=t.id in mutated)
+            elif isinstance(st, (ast.Assign, ast.AnnAssign)) and _is_container_value(st.value):
+                for t in (st.targets if isinstance(st, ast.Assign) else [st.target]):
+                    if isinstance(t, ast.Name) and t.id != '__all__':
+                        add(t.id, 'KModuleContainer', flag=t.id in mutated)
+    # de-duplicate (a lazy field may be tested in several methods)
+    seen, out = set(), []
+    for s in sites:
+        k = (s['file'], s['name'], s['kind'])
+        if k not in seen:
+            seen.add(k)
+            out.append(s)
+    return out
+
+
+def uniq_filters() -> typing.List[dict]:
+    """every template filter that hands out unique names: language, filter name, the constant arguments it passes to the
+    generator, and how the filter is registered (a plain filter is constant-folded by Jinja at template compile time)"""
+    out = []
+    root = os.path.join(gen.REPO, 'src', 'nunavut', 'lang')
+    for lang in sorted(os.listdir(root)):
+        p = os.path.join(root, lang, '__init__.py')
+        if not os.path.isfile(p) or lang.startswith('_'):
+            continue
+        tree = ast.parse(open(p, encoding='utf-8').read())
+        for fn in tree.body:
+            if not isinstance(fn, ast.FunctionDef):
+                continue
+            for n in ast.walk(fn):
+                if (isinstance(n, ast.Call) and isinstance(n.func, ast.Call) and isinstance(n.func.func, ast.Attribute)
+                        and n.func.func.attr == 'get_instance' and isinstance(n.func.func.value, ast.Name)
+                        and n.func.func.value.id == 'UniqueNameGenerator'):
+                    if len(n.args) != 4 or n.keywords or not all(isinstance(n.args[i], ast.Constant) and isinstance(n.args[i].value, str)
+                                                                  for i in (0, 2, 3)):
+                        raise Unsupported('%s.%s: unique-name call with non-literal key/prefix/suffix' % (lang, fn.name))
+                    if not fn.name.startswith('filter_'):
+                        raise Unsupported('%s.%s: unique names handed out by a non-filter' % (lang, fn.name))
+                    decos = [_deco_name(d) for d in fn.decorator_list]
+                    reg = ('volatile' if 'template_volatile_filter' in decos else 'context' if 'template_context_filter' in decos
+                           else 'environment' if 'template_environment_filter' in decos else 'language' if 'template_language_filter' in decos
+                           else 'plain')
+                    out.append({'lang': lang, 'filter': fn.name[len('filter_'):], 'key': n.args[0].value, 'prefix': n.args[2].value,
+                                'suffix': n.args[3].value, 'registration': reg})
+    return out
+
+
+def gen_sites() -> typing.Tuple[bool, str]:
+    out_path = os.path.join(gen.GEN_DIR, 'Gen_Sites.v')
+    head = (gen.HEADER % 'src/nunavut/**/*.py (memoisation and mutable process state; bundled jinja2/markupsafe excluded), lang/*/__init__.py (unique-name filters)'
+            + 'From Verif Require Import GenStateSites.\nOpen Scope N_scope.\n\n')
+    try:
+        sites = scan_sites()
+        filters = uniq_filters()
+    except (Unsupported, SyntaxError, OSError) as ex:
+        gen.write_if_changed(out_path, head + '(* scanner failed closed: %s *)\n' % str(ex).replace('*)', '* )'))
+        return False, 'state-site scanner failed closed: %s' % ex
+    try:
+        resets = generate_code_facts(gen.parse_repo('src/nunavut/jinja/__init__.py')).get('generate_code_resets_uniq', False)
+    except (Unsupported, SyntaxError, OSError, IndexError):
+        resets = False
+    for s in sites:      # a class-level singleton is tolerable only if _generate_code replaces it at the start of every file
+        if s['kind'] == 'KClassSingleton':
+            s['flag'] = bool(resets) and s['name'] == 'UniqueNameGenerator._singleton'
+    rows = []
+    for s in sites:
+        ps = '; '.join('(%s, %s)' % (_coq_str(n), k) for n, k in s['params'])
+        rows.append('  {| s_file := %s;\n     s_name := %s;\n     s_kind := %s; s_params := [%s]; s_flag := %s;\n     s_key := %s |}'
+                    % (_coq_str(s['file']), _coq_str(s['name']), s['kind'], ps, 'true' if s['flag'] else 'false', _coq_str(s['key'])))
+    frows = ['  {| f_lang := %s; f_filter := %s; f_key := %s; f_prefix := %s; f_suffix := %s; f_reg := %s |}'
+             % (_coq_str(f['lang']), _coq_str(f['filter']), _coq_str(f['key']), _coq_str(f['prefix']), _coq_str(f['suffix']),
+                'R' + f['registration'].capitalize()) for f in filters]
+    text = ('Definition g_sites : list site :=\n [\n' + ';\n'.join(rows) + '\n ].\n\n'
+            'Definition g_uniq_filters : list uniq_filter :=\n [\n' + ';\n'.join(frows) + '\n ].\n')
+    gen.write_if_changed(out_path, head + text)
+    return True, 'ok (%d sites, %d unique-name filters)' % (len(sites), len(filters))
+
+
+GENERATORS['sites'] = gen_sites
